@@ -256,6 +256,26 @@ def run(ctx):
                 r4.site("is_native_token(offer_asset) at %s dominates the direct swap call" % common.span_of_block_term(ex, g.b))
             found = True
     if not found:
+        # the same test written as a match on the asset kind: `if let AssetInfo::Token {..} = &offer_asset.info { return Err(..) }`
+        for sb_, blk_ in enumerate(ex.body.blocks):
+            if blk_["cleanup"] or sb_ not in dregion or blk_["term"]["k"] != "switch":
+                continue
+            c_ = common.switch_cond(P, ex, sb_)
+            if not c_ or c_[0] != "discr" or set(ctx.roots(c_[1])) != {P_(exm, msg_i, "~Swap.offer_asset.info")}:
+                continue
+            ty_ = common.discr_place_ty(ex, sb_)
+            t_ = blk_["term"]
+            tgt_ = {}
+            for val_, tb_ in t_["arms"]:
+                tgt_[common.variant_name(P, ty_, val_)] = tb_
+            rest_ = [x_ for x_ in (common.all_variants(P, ty_) or []) if x_ not in tgt_]
+            if len(rest_) == 1 and ex.body.blocks[t_["otherwise"]]["term"]["k"] != "unreachable":
+                tgt_[rest_[0]] = t_["otherwise"]
+            if set(tgt_) == {"Token", "NativeToken"}:
+                if check_guard_protects_call(ctx, r4, ex, (sb_, tgt_["NativeToken"]), (sb_, tgt_["Token"]), dcall, "native-offer", "C02.R4"):
+                    r4.site("match on offer_asset.info at %s: Token => Err, NativeToken dominates the direct swap call" % common.span_of_block_term(ex, sb_))
+                found = True
+    if not found:
         r4.fail("C02.R4:no-guard", ex.path, common.span_of_block_term(ex, dcall), "the direct Swap arm reaches the swap handler without requiring a native offer asset (a cw20 offer would be credited without being delivered)")
     else:
         r4.site("direct offer asset ⊢ ExecuteMsg::Swap.offer_asset")
@@ -377,7 +397,11 @@ def run(ctx):
     for label, got, want, f, cb in checks:
         # `to` may also be forwarded unvalidated / as-is
         alt = {x.replace("valid(", "").replace(")}", "}") for x in want}
-        if got == want or got == alt or (label.endswith("to") and got <= want | alt and any("Some" in g for g in got)):
+        whole = set()
+        if label.endswith("to"):
+            # the message's optional field handed over as it is (the handler validates it itself)
+            whole = {re.sub(r"~Some\.0\)?\}$", "", x.split("{0=", 1)[1].replace("valid(", "")) for x in want if "{0=" in x}
+        if got == want or got == alt or (whole and got == whole) or (label.endswith("to") and got <= want | alt and any("Some" in g for g in got)):
             r8.site("%s ⊢ %s" % (label, sorted(got)))
         else:
             r8.fail("C02.R8:%s" % label.replace(" ", "-"), f.path, common.span_of_block_term(f, cb), "%s passed to the swap handler ⊢ %s, expected %s" % (label, sorted(got), sorted(want)))
